@@ -51,6 +51,24 @@ fn type_directed_args(t: &mut Tape, params: &BTreeMap<String, Type>, known: &Arg
             out.insert(k.clone(), v.clone());
             continue;
         }
+        // the argument map is not typed against the declaration; the forms the back end itself accepts
+        // for a declared type are in the quantifier (coercion.rs: an address may be Address, Bytes or
+        // bech32 text; bytes may be Bytes or text) - ill-typed arguments are not
+        if matches!(ty, Type::Address | Type::Bytes) && t.draw(8) == 7 {
+            let a = addr_for(t.index(3), false, false);
+            let alt = match ty {
+                Type::Address => match t.draw(2) {
+                    0 => {
+                        let hrp = bech32::Hrp::parse("addr_test").unwrap();
+                        ArgValue::String(bech32::encode::<bech32::Bech32>(hrp, &a).unwrap())
+                    }
+                    _ => ArgValue::Bytes(a),
+                },
+                _ => ArgValue::String("text".into()),
+            };
+            out.insert(k.clone(), alt);
+            continue;
+        }
         let v = match ty {
             Type::Int => ArgValue::Int(*t.pick(&[2_000_000i128, 1, 0, 7, 1000])),
             Type::Bool => ArgValue::Bool(t.chance(1, 2)),
